@@ -59,6 +59,13 @@ pub fn observe_read(txn: &ReadTransaction) -> Result<Obs, String> {
                     if n != d.len() as u64 {
                         return Err(format!("table {name}: len() = {n} but iteration yields {}", d.len()));
                     }
+                    // a scan never compares routing keys; point lookups do
+                    for (key, val) in d.iter() {
+                        let g = t.get(key).map_err(|e| format!("get {name}: {e}"))?;
+                        if g.as_ref() != Some(val) {
+                            return Err(format!("table {name}: get({key:?}) does not return the entry that iteration yields"));
+                        }
+                    }
                     found = Some(ObsTable::T(k, d));
                     break;
                 }
@@ -89,6 +96,12 @@ pub fn observe_read(txn: &ReadTransaction) -> Result<Obs, String> {
                     let pairs: u64 = d.iter().map(|(_, v)| v.len() as u64).sum();
                     if n != pairs {
                         return Err(format!("multimap {name}: len() = {n} but iteration yields {pairs} pairs"));
+                    }
+                    for (key, vals) in d.iter() {
+                        let (_, g) = t.get(key, 0).map_err(|e| format!("get {name}: {e}"))?;
+                        if g != *vals {
+                            return Err(format!("multimap {name}: get({key:?}) differs from what iteration yields"));
+                        }
                     }
                     found = Some(ObsTable::M(k, d));
                     break;
